@@ -920,3 +920,6 @@ LEVEL_NOTE = (
     'key validity is taken narrowly (see assumptions).'
 )
 TECHNIQUE = 'property-based testing (Hypothesis), round-trip and reference-order oracles, forked children for package installs'
+
+# coverage-guided (atheris) pass of the thorough tier: (campaign, libFuzzer runs, instrumented module prefixes)
+FUZZ = [('tag', 30000, ['forml.io.asset', 'toml']), ('relkey', 30000, ['forml.io.asset']), ('genkey', 30000, ['forml.io.asset'])]
